@@ -5,7 +5,7 @@
 use crate::dur::{root_dir, Failure, FsCounters};
 use crate::values::fnv64;
 use inputlayer::hnsw_index::HnswIndex;
-use inputlayer::index_manager::{DistanceMetric, HnswConfig, Index};
+use inputlayer::index_manager::{DistanceMetric, HnswConfig, Index, IndexManager, IndexType, RegisteredIndex};
 use serde::{Deserialize, Serialize};
 use std::collections::BTreeMap;
 
@@ -20,6 +20,8 @@ pub enum VOp {
     Search { q: Vec<f32>, k: usize, ef: Option<usize> },
     /// save to disk, drop, load
     SaveLoad,
+    /// save and load through IndexManager::save_indexes / load_indexes (registration metadata + index files)
+    ManagerSaveLoad,
 }
 
 #[derive(Clone, Debug, Serialize, Deserialize, PartialEq, Default)]
@@ -210,6 +212,47 @@ fn run(case: &VCase, out: &mut VOutcome, log: &mut Vec<u8>) -> Result<(), Failur
                 }
                 idx = loaded;
             }
+            VOp::ManagerSaveLoad => {
+                // a copy of the index goes through the manager (the manager owns what it saves)
+                let tmp = format!("{dir}-copy");
+                idx.save(std::path::Path::new(&tmp)).map_err(|e| fail("index_save_failed", i, e))?;
+                let copy = HnswIndex::load(std::path::Path::new(&tmp)).map_err(|e| fail("index_load_failed", i, e))?;
+                let before = (idx.len(), idx.tombstone_count(), idx.dimension(), idx.metric(), idx.config().clone());
+                let base = format!("{}/mgr", root_dir());
+                let mut mgr = IndexManager::new();
+                let reg = RegisteredIndex { name: "emb_idx".into(), relation: "docs".into(), column_idx: 1, column_name: "v".into(), index_type: IndexType::Hnsw(cfg.clone()) };
+                mgr.register_index(reg).map_err(|e| fail("index_save_failed", i, e))?;
+                let n = copy.len();
+                mgr.set_materialized("emb_idx", Box::new(copy), n);
+                mgr.save_indexes(std::path::Path::new(&base)).map_err(|e| fail("index_save_failed", i, e))?;
+                let mut mgr2 = IndexManager::new();
+                let loaded_n = mgr2.load_indexes(std::path::Path::new(&base)).map_err(|e| fail("index_load_failed", i, e))?;
+                out.save_loads += 1;
+                if loaded_n != 1 || !mgr2.has_index("emb_idx") {
+                    return Err(fail("save_load_changes_index", i, format!("manager loaded {loaded_n} indexes, registered: {}", mgr2.has_index("emb_idx"))));
+                }
+                let Some(mat) = mgr2.get_materialized("emb_idx") else {
+                    return Err(fail("save_load_changes_index", i, "index registered but not materialized after load".into()));
+                };
+                let after = (mat.index.len(), mat.index.tombstone_count(), mat.index.dimension(), mat.index.metric(), cfg.clone());
+                let reg2 = mgr2.get_registered("emb_idx").map(|r| (r.relation.clone(), r.column_idx, r.column_name.clone(), format!("{:?}", r.index_type)));
+                let want_reg = Some(("docs".to_string(), 1usize, "v".to_string(), format!("{:?}", IndexType::Hnsw(cfg.clone()))));
+                if before != after || reg2 != want_reg || mat.tuple_count != before.0 || !mat.valid {
+                    return Err(fail("save_load_changes_index", i, format!("manager: before {before:?} after {after:?}; registration {reg2:?}; tuple_count {} valid {}", mat.tuple_count, mat.valid)));
+                }
+                // the loaded index answers like the original
+                if let Some((_, q)) = live.iter().next() {
+                    let a = idx.search(q, 5, Some(live.len().max(8) + 8));
+                    let b = mat.index.search(q, 5, Some(live.len().max(8) + 8));
+                    let da: Vec<i64> = a.iter().map(|(_, d)| (d * 1e4).round() as i64).collect();
+                    let db: Vec<i64> = b.iter().map(|(_, d)| (d * 1e4).round() as i64).collect();
+                    if da != db {
+                        return Err(fail("save_load_changes_index", i, format!("search before {a:?} after manager load {b:?}")));
+                    }
+                }
+                // continue the history on the files the manager wrote
+                idx = HnswIndex::load(std::path::Path::new(&format!("{base}/indexes/emb_idx"))).map_err(|e| fail("index_load_failed", i, e))?;
+            }
             VOp::Search { q, k, ef } => {
                 if dim != 0 && q.len() != dim {
                     continue;
@@ -271,6 +314,9 @@ fn run(case: &VCase, out: &mut VOutcome, log: &mut Vec<u8>) -> Result<(), Failur
         }
         if idx.len() < live.len() {
             return Err(fail("live_vector_missing", i, format!("index holds {} vectors, model has {} live", idx.len(), live.len())));
+        }
+        if idx.len() != live.len() + idx.tombstone_count() {
+            return Err(fail("stored_count_differs", i, format!("index stores {} vectors with {} tombstones, model has {} live identifiers", idx.len(), idx.tombstone_count(), live.len())));
         }
         out.state_hashes.push(fnv64(format!("{:?}", live).as_bytes()));
         out.steps_done += 1;
